@@ -56,6 +56,16 @@ def gen_case(seed, idx, tier):
                 threads=int(rng.choice([1, 2, 3, 5, 8])),
                 gids=bool(rng.random() < 0.3),
                 knob_seed=int(rng.integers(1 << 30)))
+    if dim >= 2 and idx % 8 in (3, 7) and any(len(a['x']) for a in arrays):
+        # every fourth case: all particles of all arrays share their x (or
+        # y) coordinate exactly - a sheet aligned with the axes, zero extent
+        # along an axis the search uses - and keep it (no history)
+        ax = 'x' if idx % 8 == 3 else 'y'
+        c0 = next(float(a[ax][0]) for a in arrays if len(a[ax]))
+        for a in arrays:
+            a[ax][:] = c0
+        case['history'] = []
+        case['flat_axis'] = ax
     return case, arrays
 
 
